@@ -53,3 +53,37 @@ Proof.
   repeat constructor.
 Qed.
 Print Assumptions C11_example.
+
+(* ---- the offset bookkeeping of the concatenation kernels as it is in the source (regenerated table) -----------------
+   Gen/CatArms.v is rewritten from src/interpreter/src/stdlib/{horzcat,vertcat}.rs and src/core/src/structures/matrix.rs
+   (copy_mat!) by translators/cat_arms.py on every run of this check; the statements below are about THAT table, so a slip in
+   the offset chain of ONE of the hand-written N-block kernels or in one arm of the dispatch breaks them whether or not a
+   generated case has that number / kind of blocks.  Definitions: Proofs/CatArmsP.v. *)
+From MechV Require Import Model.SrcArms Gen.CatArms Proofs.CatArmsP.
+Import String.
+
+Theorem C11_cat_source_fully_read : ca_unrecognised = [].
+Proof. exact ca_nothing_unrecognised. Qed.
+Print Assumptions C11_cat_source_fully_read.
+
+(* every block-copying solve() places its blocks e0, e1, .. in order, block k at the sum of what the copies of blocks 0..k-1
+   returned, with a horizontal (copy_into, copy_into_r) resp. vertical (copy_into_row_major, copy_into_v) copy method; the
+   dynamic-vector arms of the dispatch advance by 1 per scalar and by the block's COLUMNS (horizontal) / ROWS (vertical);
+   the four CopyMat methods are the reference ones (linear copies return the element count, the row-major copy the row count) *)
+Theorem C11_cat_kernels_regular :
+  (forallb chain_ok ca_solves = true /\ solves_complete = true) /\
+  (forallb advance_ok ca_advances = true /\ advances_complete = true) /\
+  (forallb copy_ok ca_copy_methods = true /\
+   map (fun e : copy_entry => let '(m, _, _, _) := e in m) ca_copy_methods
+   = ["copy_into"; "copy_into_v"; "copy_into_r"; "copy_into_row_major"]%string).
+Proof. exact ca_regular. Qed.
+Print Assumptions C11_cat_kernels_regular.
+
+(* meaning of the chain check, for ANY list of copies that passes it and ANY return values: block j is copied at
+   ret(0) + .. + ret(j-1) *)
+Theorem C11_cat_chain_offsets_are_prefix_sums :
+  forall (direction m0 : String.string) (cps : list cp), list_eqb (cp_ok direction m0) cps (seq 0 (List.length cps)) = true ->
+    forall (ret : nat -> nat) (j : nat) (c : cp), nth_error cps j = Some c ->
+      let '(Cp b m off) := c in b = j /\ m = m0 /\ offset_value ret off = prefix_sum ret j.
+Proof. exact chain_offsets_are_prefix_sums. Qed.
+Print Assumptions C11_cat_chain_offsets_are_prefix_sums.
